@@ -174,6 +174,7 @@ class World:
         self.path_style = path_style
         self.retired = set()        # paths consumed by conflict gadgets: never touched again
         self.guard_retouch = False  # when set: no op may touch an object created/written earlier in this window
+        self.crash_anywhere = False # C07 enum/batch: a crash may hit any window -> no folder rename when a side is path-style
         self.crash_mode = False     # C07: additionally no folder rename after a crash arm when a side is path-style
         self.strict_reuse = False   # when set: PATH_REUSE without the id/id same-type exception
         self.strict_dirmove = False # when set: the id/id exception of DIRMOVE_ISOLATED covers new files only (no mkdir)
@@ -215,6 +216,8 @@ class World:
                         return "CRASH_THEN_TOUCH_NEW" if self.crash_mode else "RETOUCH_IN_WINDOW"
             if self.crash_mode and op == "rename" and tree.is_dir(a[0]) and any(self.path_style):
                 return "CRASH_DIRMOVE_PATHSTYLE"
+        if self.crash_anywhere and op == "rename" and tree.is_dir(a[0]) and any(self.path_style):
+            return "CRASH_DIRMOVE_PATHSTYLE"
         if "PATH_REUSE" in H and win.reused:
             for p in touched:
                 for r in win.reused:
